@@ -2,6 +2,7 @@ import PdtVerif.Lemmas.Estimators
 import PdtVerif.Lemmas.EstimatorsCount
 import PdtVerif.Lemmas.EstimatorsParams
 import PdtVerif.Lemmas.EstimatorsIMH
+import PdtVerif.Lemmas.EstimatorsObj
 /-!
 # C19 — estimators are unbiased where promised; relaxed distributions are consistent
 
@@ -1391,5 +1392,102 @@ example : (gParams TR (1/100) .probs [2, 2] [1, 3, 2, 2]).expand [3]
 example : (lbParams TR (1/100) .logits [2] [-3, 40]).expand [2, 3]
     = lbParams TR (1/100) .logits ([2, 3] ++ [2]) (List.replicate (prodL [2, 3]) [(-3 : ℝ), 40]).flatten :=
   C19_params_lb_expand _ _ _ _ _
+
+/-! ## The distribution OBJECT: what it denotes does not depend on what was done with it before
+
+The relaxed distributions store the attribute they were built with and derive the other one lazily
+(`lazy_property`: computed on the first read, then kept in `__dict__`); the SRSWOR distribution does
+the same with `log_partition`.  `expand` builds the derived object from what it finds in `__dict__`
+(`RelaxedObj.expand`, `SrsworObj.expand` follow the code).  A history is any sequence of reads of the
+lazy attributes (every method is a sequence of such reads as far as the object's state goes:
+`csample` reads `probs`; `rsample`, `log_prob`, `tlog_prob`, `clog_prob`, `mean` read `logits`) and of
+`expand`s, each continuing on the derived object.  Whatever the history, a reader of the final object
+gets the attributes of a FRESHLY CONSTRUCTED distribution of the expanded parameter — so every theorem
+above about `lbParams` / `gParams` (threshold, factorisation, conditional samples, tensor level)
+applies to the object after the history. -/
+
+/-- **LogisticBernoulli, any history**: shapes, `probs` and `logits` read off the object after ANY
+sequence of reads and `expand`s are those of `LogisticBernoulli(c = data expanded by the leading axes the
+history added)`. -/
+theorem C19_obj_lb_history (eps : ℝ) (c : Ctor) (shape : List Nat) (data : List ℝ) (h : List ObjOp) :
+    ((lbObj c shape data).run (lbConv TR eps) h).params (lbConv TR eps)
+      = lbParams TR eps c (preOf h ++ shape) (tile (prodL (preOf h)) data) := by
+  have hc := Coherent.run (lbConv_tiles eps) (c := c) h [] (o := lbObj c shape data)
+    (P := lbParams TR eps c shape data) (by rw [expand_nil]; exact lbObj_coherent eps c shape data)
+  rw [hc.params]
+  exact C19_params_lb_expand eps c shape _ data
+
+/-- **GumbelOneHotCategorical, any history** (the class axis stays last; `shape ≠ []`, whole rows). -/
+theorem C19_obj_cat_history (eps : ℝ) (c : Ctor) (shape : List Nat) (data : List ℝ) (hs : shape ≠ [])
+    (hV : 0 < shape.getLastD 1) (hlen : data.length = prodL shape.dropLast * shape.getLastD 1)
+    (h : List ObjOp) :
+    ((gObj TR c shape data).run (gConv TR eps (shape.getLastD 1)) h).params (gConv TR eps (shape.getLastD 1))
+      = gParams TR eps c (preOf h ++ shape) (tile (prodL (preOf h)) data) := by
+  have hc := Coherent.run (gConv_tiles eps _ hV) (c := c) h [] (o := gObj TR c shape data)
+    (P := gParams TR eps c shape data) (by rw [expand_nil]; exact gObj_coherent eps c shape data hV hlen)
+  rw [hc.params]
+  exact C19_params_cat_expand eps c shape _ data hs hlen
+
+theorem SrsworObj.run_outSize (h : List SrsworOp) : ∀ o : SrsworObj, (o.run h).outSize = o.outSize := by
+  induction h with
+  | nil => intro o; rfl
+  | cons op h ih =>
+    intro o
+    simp only [SrsworObj.run, List.foldl_cons]
+    have := ih (o.step op)
+    simp only [SrsworObj.run] at this
+    rw [this]
+    cases op with
+    | partition =>
+      simp only [SrsworObj.step, SrsworObj.readPartition]
+      split <;> rfl
+    | expand pre => rfl
+
+/-- **SRSWOR, any history**: after any sequence of reads of `log_partition` (`log_prob` reads it)
+and `expand`s the object has the expanded batch shape and counts, and `exp(log_prob(·))` of every
+batch element is `1 / partition` of ITS counts (`= 1 / C(total, given)`: `C19_srswor_support_prob`). -/
+theorem C19_obj_srswor_history (shape : List Nat) (outSize : Nat) (total given : List Nat)
+    (hl : total.length = given.length) (h : List SrsworOp) :
+    ((srsworObj shape outSize total given).run h).batchShape = preOfS h ++ shape
+    ∧ ((srsworObj shape outSize total given).run h).total = tile (prodL (preOfS h)) total
+    ∧ ((srsworObj shape outSize total given).run h).given = tile (prodL (preOfS h)) given
+    ∧ ((srsworObj shape outSize total given).run h).probs
+        = tile (prodL (preOfS h)) (List.zipWith (srsworProb outSize) total given) := by
+  have hc := CoherentS.run h [] (o := srsworObj shape outSize total given) (shape := shape)
+    (total := total) (given := given)
+    ⟨rfl, by simp [srsworObj, prodL, tile_one], by simp [srsworObj, prodL, tile_one],
+      by simpa [prodL, tile_one] using hl, Or.inl rfl⟩
+  obtain ⟨h1, h2, h3, h4, h5⟩ := hc
+  refine ⟨h1, h2, h3, ?_⟩
+  have ho := SrsworObj.run_outSize h (srsworObj shape outSize total given)
+  have e : List.zipWith (srsworProb outSize) total given
+      = (List.zipWith (srsworPartition outSize) total given).map (1 / ·) := by
+    rw [List.map_zipWith]; rfl
+  have key : ((srsworObj shape outSize total given).run h).readPartition.1
+      = tile (prodL (preOfS h)) (List.zipWith (srsworPartition outSize) total given) := by
+    rw [← tile_zipWith _ _ _ _ hl]
+    rcases h5 with h5 | h5
+    · simp only [SrsworObj.readPartition, h5, h2, h3, ho]; rfl
+    · simp only [SrsworObj.readPartition, h5, ho]; rfl
+  rw [SrsworObj.probs, key, e, tile_map]
+
+/-- a concrete history: read `probs` (as `csample` does), expand, read `logits`, expand again -/
+example : ((lbObj .logits [2] [(-3 : ℝ), 40]).run (lbConv TR (1/100))
+      [.probs, .expand [3], .logits, .expand [2]]).params (lbConv TR (1/100))
+    = lbParams TR (1/100) .logits ([2, 3] ++ [2]) (tile 6 [(-3 : ℝ), 40]) :=
+  C19_obj_lb_history (1/100) .logits [2] [-3, 40] [.probs, .expand [3], .logits, .expand [2]]
+
+example : ((gObj TR .probs [2, 2] [(1 : ℝ), 3, 2, 2]).run (gConv TR (1/100) 2)
+      [.logits, .expand [3], .probs]).params (gConv TR (1/100) 2)
+    = gParams TR (1/100) .probs ([3] ++ [2, 2]) (tile 3 [(1 : ℝ), 3, 2, 2]) :=
+  C19_obj_cat_history (1/100) .probs [2, 2] [1, 3, 2, 2] (by simp) (by simp) (by simp [prodL])
+    [.logits, .expand [3], .probs]
+
+/-- totals equal, given counts different, cached before the expand -/
+example : ((srsworObj [2] 3 [3, 3] [0, 1]).run [.partition, .expand [2], .partition]).probs
+    = [1, 1/3, 1, 1/3] := by
+  obtain ⟨_, _, _, h⟩ := C19_obj_srswor_history [2] 3 [3, 3] [0, 1] rfl [.partition, .expand [2], .partition]
+  rw [h]
+  decide +kernel
 
 end PdtVerif.Estimators
